@@ -12,6 +12,11 @@ type propCfg struct {
 	Watchdog    [2]int // seconds per child process, quick / thorough
 	MinEvals    [2]int
 	KeepLogs    bool
+	// RequirePositive: every counter with this prefix must be > 0, and at
+	// least RequireCount of them must exist, or the run is inconclusive
+	// (e.g. an indicator with no compared position).
+	RequirePositive string
+	RequireCount    int
 }
 
 func tierIdx(t string) int {
